@@ -48,6 +48,7 @@ let () =
            Printf.printf "R%d:" i;
            List.iter (fun (e : entry) -> Printf.printf " %d,%d,%d" (kind_code e.e_kind) (opt_int e.e_arg) (if e.e_sr then 1 else 0)) (List.nth tb i);
            print_string "\n") sts;
+         if Array.length Sys.argv > 2 then Printf.printf "VALID %b SOUND %b NOERR %b\n" (validate g (List.map (fun (s : lrstate) -> s.st_all) sts) tb) (validate_sound g (List.map (fun (s : lrstate) -> s.st_all) sts) tb) (no_error_symbol g (List.map (fun (s : lrstate) -> s.st_all) sts) tb);
          let d = diag_text nm g sts tb in
          Printf.printf "DIAG %d\n%s\nENDDIAG\n" (String.length d) d;
          if List.exists (List.exists (fun (e : entry) -> e.e_kind = KRR)) tb then print_string "INPUTS skipped-rr\n" else
